@@ -71,7 +71,7 @@ func (d *Device) handleKEYEvent(ie *input.InputEvent) {
 		// workaround for the case where keyboard mapping has ben changed while some key related to midi note
 		// is still active and new mapping doesn't point to any note, therefore noteOk was evaluated to false
 		if ie.Event.Value == EV_KEY_RELEASE {
-			_, ok := d.noteTracker[ie.Event.Code]
+			_, ok := d.noteTracker[keyOf(ie)]
 			if ok {
 				d.NoteOff(ie)
 				break
@@ -354,16 +354,16 @@ func (d *Device) ProcessEvents(inputEvents <-chan *input.InputEvent) {
 
 	// the LED refresh goroutine walks the trackers under this mutex until it notices the cancellation
 	d.eventProcessMutex.Lock()
-	for evcode := range d.noteTracker {
+	for key := range d.noteTracker {
 		d.NoteOff(&input.InputEvent{
 			Source: input.Handler{
-				Name:       "",
+				Name:       key.subHandler,
 				DeviceInfo: input.DeviceInfo{Name: "shutdown cleanup"},
 			},
 			Event: evdev.InputEvent{
 				Time:  syscall.Timeval{},
 				Type:  evdev.EV_KEY,
-				Code:  evcode,
+				Code:  key.code,
 				Value: 0,
 			},
 		})
